@@ -66,7 +66,9 @@ func (r *rng) param(edge int) string {
 	case 7:
 		return "65535"
 	case 8:
-		return r.pick("2147483648", "9223372036854775807", "18446744073709551617", "99999999999999999999999")
+		// beyond int32, at and beyond int64 and uint64 (values that would wrap to -1, 0, 1, 2, edge)
+		return r.pick("2147483648", "9223372036854775807", "9223372036854775808", "18446744073709551615", "18446744073709551616",
+			"18446744073709551617", "18446744073709551618", fmt.Sprintf("1844674407370955%d", 1616+edge), "99999999999999999999999")
 	default:
 		if edge < 1 {
 			edge = 1
@@ -323,7 +325,8 @@ func (r *rng) item(p profile, w, h int) (int, string) {
 		}
 		if r.chance(1, 5) {
 			// not queries: the same finals behind an intermediate byte, a sub-parameter or a late private marker
-			return kind, r.pick("\x1b[6 n", "\x1b[5!n", "\x1b[6:1n", "\x1b[0$c", "\x1b[>0 c", "\x1b[?$u", "\x1b[6\"n", "\x1b[5;?n", "\x1b[ c", "\x1b[?1$u", "\x1b[6#n")
+			return kind, r.pick("\x1b[18446744073709551621n", "\x1b[18446744073709551622n", "\x1b[18446744073709551616c", "\x1b[9223372036854775813n", "\x1b[>18446744073709551616c", "\x1b[36893488147419103238n",
+				"\x1b[6 n", "\x1b[5!n", "\x1b[6:1n", "\x1b[0$c", "\x1b[>0 c", "\x1b[?$u", "\x1b[6\"n", "\x1b[5;?n", "\x1b[ c", "\x1b[?1$u", "\x1b[6#n")
 		}
 		return kind, r.pick("\x1b[c", "\x1b[0c", "\x1b[>c", "\x1b[5n", "\x1b[6n", "\x1b[?u", "\x1b[1c", "\x1b[>0c", "\x1b[6n", "\x1b[n", "\x1b[7n")
 	case kKbd:
@@ -631,7 +634,7 @@ var profiles = map[string]profile{
 	"stepall":   {wide: true, step: true, prefill: true, maxItems: 12, weights: allKinds},
 	"c03":       {wide: true, step: true, prefill: true, maxItems: 12, weights: weights(kText, 55, kC0Move, 8, kCsiMove, 20, kSgr, 6, kMode, 8, kMargins, 3)},
 	"c04":       {wide: true, step: true, prefill: true, maxItems: 12, weights: weights(kText, 10, kC0Move, 30, kCsiMove, 45, kMargins, 10, kMode, 5)},
-	"c05":       {wide: true, step: true, prefill: true, maxItems: 10, weights: weights(kText, 15, kCsiMove, 22, kErase, 45, kSgr, 10, kC0Move, 5, kMargins, 8)},
+	"c05":       {wide: true, step: true, prefill: true, maxItems: 12, weights: weights(kText, 14, kCsiMove, 20, kErase, 42, kSgr, 12, kC0Move, 5, kMargins, 7, kScroll, 8)},
 	"c06":       {wide: true, step: true, prefill: true, maxItems: 12, weights: weights(kText, 12, kCsiMove, 12, kScroll, 38, kMargins, 12, kC0Move, 12, kSgr, 8, kErase, 10)},
 	"c07":       {wide: true, step: true, prefill: true, maxItems: 12, weights: weights(kText, 25, kSgr, 45, kErase, 15, kCsiMove, 10, kScroll, 5)},
 	"c09cut":    {wide: true, cutAny: true, maxItems: 12, weights: weights(kText, 35, kString, 55, kOtherC0, 10)},
